@@ -93,10 +93,10 @@ theorem sisCorrect_ok (cfg : SisCfg ℝ) (lin circ : Nat) (hN : 0 < cfg.N) (s : 
     · simp only [Bool.not_true, Bool.false_eq_true, if_false]
       exact hp.toShapeOK
 
-/-- contract of a resampling object inside SIS: from a well-formed normalised corrected set and a
-    destination of the filter's shape it produces a well-formed set with uniform weights `-log N` -/
+/-- contract of a resampling object inside SIS: from a corrected set and a destination of the filter's
+    shape (whatever the weights) it produces a well-formed set with uniform weights `-log N` -/
 def ResamplerOK (N lin circ : Nat) (rs : PSet π ℝ → PSet π ℝ → ℝ → PSet π ℝ × List Int) : Prop :=
-  ∀ cor res u, SetOK N lin circ cor → ShapeOK N lin circ res →
+  ∀ cor res u, ShapeOK N lin circ cor → ShapeOK N lin circ res →
     SetOK N lin circ (rs cor res u).1 ∧ (rs cor res u).1.logw = List.replicate N (-(Real.log (N : ℝ)))
 
 theorem fresh_shapeOK (N lin circ : Nat) : ShapeOK N lin circ (PSet.fresh N lin circ : PSet π ℝ) :=
@@ -119,7 +119,7 @@ theorem resample_resamplerOK (N lin circ : Nat) (hN : 0 < N) : ResamplerOK N lin
 theorem resampled_ok (N lin circ : Nat) (hN : 0 < N) (cor : PSet π ℝ) (h : SetOK N lin circ cor) (u1 : ℝ) :
     SetOK N lin circ (resample cor (PSet.fresh N cor.lin cor.circ) u1).1 ∧
     (resample cor (PSet.fresh N cor.lin cor.circ) u1).1.logw = List.replicate N (-(Real.log (N : ℝ))) := by
-  have := resample_resamplerOK (π := π) N lin circ hN cor (PSet.fresh N cor.lin cor.circ) u1 h
+  have := resample_resamplerOK (π := π) N lin circ hN cor (PSet.fresh N cor.lin cor.circ) u1 h.toShapeOK
     (by rw [h.lin, h.circ]; exact fresh_shapeOK N lin circ)
   exact this
 
@@ -188,8 +188,119 @@ theorem sis_inv_stepWith (cfg : SisCfg ℝ) (lin circ : Nat) (hN : 0 < cfg.N) (h
   · intro _
     rw [sisStepWith_cor]
     split
-    · exact (hrs _ _ _ hc (by rw [hc.lin, hc.circ]; exact fresh_shapeOK cfg.N lin circ)).1
+    · exact (hrs _ _ _ hc.toShapeOK (by rw [hc.lin, hc.circ]; exact fresh_shapeOK cfg.N lin circ)).1
     · exact hc
+
+/-! #### without any hypothesis on the initial weights -/
+
+/-- the shape part of the invariant -/
+structure SisShapeInv (cfg : SisCfg ℝ) (lin circ : Nat) (s : SisState π ℝ) : Prop where
+  pred : ShapeOK cfg.N lin circ s.pred
+  cor : s.step ≠ 0 → ShapeOK cfg.N lin circ s.cor
+
+theorem SisInv.shape {cfg : SisCfg ℝ} {lin circ : Nat} {s : SisState π ℝ} (h : SisInv cfg lin circ s) :
+    SisShapeInv cfg lin circ s := ⟨h.pred, fun h0 => (h.cor h0).toShapeOK⟩
+
+theorem sisPredict_shape (cfg : SisCfg ℝ) (lin circ : Nat) (s : SisState π ℝ) (ev : SisEvent π ℝ)
+    (hinv : SisShapeInv cfg lin circ s) (hp : PredOK ev.predict) :
+    ShapeOK cfg.N lin circ (sisPredict s ev) := by
+  unfold sisPredict
+  by_cases h0 : s.step = 0
+  · simp only [h0, bne_self_eq_false, Bool.false_eq_true, if_false]
+    exact hinv.pred
+  · have hne : (s.step != 0) = true := by simpa using h0
+    simp only [hne, if_true]
+    have hc := hinv.cor h0
+    by_cases hs : (sisFlags s ev).1 = true
+    · simp only [hs, Bool.not_true, Bool.false_eq_true, if_false]
+      exact hc
+    · have hs' : (sisFlags s ev).1 = false := by simpa using hs
+      simp only [hs', Bool.not_false, if_true]
+      obtain ⟨a, b, c, d, e, f⟩ := hp s.cor s.pred (by rw [hc.parts, hinv.pred.parts])
+      exact { n := by rw [a]; exact hinv.pred.n, lin := by rw [b]; exact hinv.pred.lin,
+              circ := by rw [c]; exact hinv.pred.circ, quat := by rw [d]; exact hinv.pred.quat,
+              parts := by rw [e]; exact hinv.pred.parts, logw := by rw [f]; exact hc.logw }
+
+/-- the corrected set has the filter's shape; it is normalised as soon as the acquisition succeeds;
+    otherwise it is the predicted set -/
+theorem sisCorrect_shape (cfg : SisCfg ℝ) (lin circ : Nat) (hN : 0 < cfg.N) (s : SisState π ℝ) (ev : SisEvent π ℝ)
+    (hinv : SisShapeInv cfg lin circ s) (hev : EvOK cfg.N ev) :
+    ShapeOK cfg.N lin circ (sisCorrect cfg s ev) ∧
+    (ev.freezeOk = true → SetOK cfg.N lin circ (sisCorrect cfg s ev)) ∧
+    (ev.freezeOk = false → sisCorrect cfg s ev = sisPredict s ev) := by
+  have hp := sisPredict_shape cfg lin circ s ev hinv hev.pred
+  have hset : ev.freezeOk = true → SetOK cfg.N lin circ (sisCorrect cfg s ev) := by
+    intro hf
+    unfold sisCorrect
+    simp only [hf, if_true]
+    apply normalizeLog_setOK _ _ _ hN
+    cases hs : (sisFlags s ev).2
+    · simp only [Bool.not_false, if_true]
+      exact bootstrapCorrect_shape _ _ _ _ _ _ _ hp hev.likLen
+    · simp only [Bool.not_true, Bool.false_eq_true, if_false]
+      exact hp
+  have hid : ev.freezeOk = false → sisCorrect cfg s ev = sisPredict s ev := by
+    intro hf; unfold sisCorrect; simp [hf]
+  refine ⟨?_, hset, hid⟩
+  cases hf : ev.freezeOk
+  · rw [hid hf]; exact hp
+  · exact (hset hf).toShapeOK
+
+theorem sis_shape_stepWith (cfg : SisCfg ℝ) (lin circ : Nat) (hN : 0 < cfg.N) (hrs : ResamplerOK cfg.N lin circ rs)
+    (s : SisState π ℝ) (ev : SisEvent π ℝ) (hinv : SisShapeInv cfg lin circ s) (hev : EvOK cfg.N ev) :
+    SisShapeInv cfg lin circ (sisStepWith rs cfg s ev) ∧
+    ((ev.freezeOk = true ∨ (sisStepWith rs cfg s ev).resampled = true) → SetOK cfg.N lin circ (sisStepWith rs cfg s ev).cor) ∧
+    ((ev.freezeOk = false ∧ (sisStepWith rs cfg s ev).resampled = false) → (sisStepWith rs cfg s ev).cor = sisPredict s ev) := by
+  obtain ⟨hc, hset, hid⟩ := sisCorrect_shape cfg lin circ hN s ev hinv hev
+  have hfresh := hrs (sisCorrect cfg s ev) (PSet.fresh cfg.N (sisCorrect cfg s ev).lin (sisCorrect cfg s ev).circ)
+    (s.rng.headD default) hc (by rw [hc.lin, hc.circ]; exact fresh_shapeOK cfg.N lin circ)
+  refine ⟨⟨?_, ?_⟩, ?_, ?_⟩
+  · rw [sisStepWith_pred]; exact sisPredict_shape cfg lin circ s ev hinv hev.pred
+  · intro _; rw [sisStepWith_cor]; split
+    · exact hfresh.1.toShapeOK
+    · exact hc
+  · intro h
+    rw [sisStepWith_cor]
+    by_cases ht : sisTrigger cfg (sisCorrect cfg s ev) = true
+    · rw [if_pos ht]; exact hfresh.1
+    · rw [if_neg ht]
+      rcases h with h | h
+      · exact hset h
+      · rw [sisStepWith_resampled] at h; exact absurd h ht
+  · rintro ⟨hf, hr⟩
+    rw [sisStepWith_resampled] at hr
+    rw [sisStepWith_cor, hr, hid hf]; rfl
+
+/-! #### epochs -/
+
+/-- contract of the initialisation model at a re-initialisation: applied to a set of the filter's shape
+    (the existing predicted set) it yields a well-formed set with normalised weights -/
+def ReinitOK (N lin circ : Nat) (init : PSet π ℝ → PSet π ℝ) : Prop :=
+  ∀ p, ShapeOK N lin circ p → SetOK N lin circ (init p)
+
+theorem sis_inv_reinit (cfg : SisCfg ℝ) (lin circ : Nat) (init : PSet π ℝ → PSet π ℝ) (s : SisState π ℝ)
+    (hinv : SisInv cfg lin circ s) (hi : ReinitOK cfg.N lin circ init) :
+    SisInv cfg lin circ (sisReinit init s) :=
+  { pred := (hi _ hinv.pred).toShapeOK, pred0 := fun _ => (hi _ hinv.pred).norm, cor := fun h => absurd rfl h }
+
+/-- admissible life items -/
+def OpOK (cfg : SisCfg ℝ) (lin circ : Nat) : SisOp π ℝ → Prop
+  | .step ev => EvOK cfg.N ev
+  | .reset init => ReinitOK cfg.N lin circ init
+
+theorem sis_inv_run' (cfg : SisCfg ℝ) (lin circ : Nat) (hN : 0 < cfg.N) (hrs : ResamplerOK cfg.N lin circ rs)
+    (ops : List (SisOp π ℝ)) (hops : ∀ op ∈ ops, OpOK cfg lin circ op) (s : SisState π ℝ) (hinv : SisInv cfg lin circ s) :
+    SisInv cfg lin circ (sisRun rs cfg s ops) := by
+  induction ops generalizing s with
+  | nil => exact hinv
+  | cons op ops ih =>
+    unfold sisRun
+    rw [List.foldl_cons]
+    have hop := hops op List.mem_cons_self
+    apply ih (fun o ho => hops o (List.mem_cons_of_mem _ ho))
+    cases op with
+    | step ev => exact sis_inv_stepWith rs cfg lin circ hN hrs s ev hinv hop
+    | reset init => exact sis_inv_reinit cfg lin circ init s hinv hop
 
 end stepWith
 
